@@ -52,6 +52,34 @@ def build_operands(sh, I, cmd, n_extra):
     return ops
 
 
+def _unsized_stays_unsized(ck, repo, name, cmd):
+    """a directive that declares no size is wrapped as an unsized deferred: a SizedDeferred announcing None poisons the address of everything after it"""
+    from ..engine.interp import ExcVal
+    seen = []
+
+    def sized(I_, fn, a, k):
+        seen.append(a[2])
+        return sym.op("sized", a[2], I_.call(a[3], [], {}))
+
+    def build(sh, I_):
+        ops = build_operands(sh, I_, metacommand(I_, name), 0)
+        if ops is None:
+            raise Raised(ExcVal("SkipInstance"))
+        return ops
+    stub = lambda v: (lambda I_, fn, a, k: v)
+    extra = {"metacommand_impl::get_as_str": stub(sym.var("STR", "str")), "devices::resolve_relative_path": stub(sym.var("PATH", "str")), "compiler::Compiler.compile_include": stub(sym.var("included_code", "bytes")),
+             "parser::parse": stub(sym.var("FILE_AST", "obj")), "compiler::Compiler.set_link_address": stub(None), "compiler::Compiler.declare_external_symbol": stub(None),
+             "metacommands::add_emitted_file": stub(None), "metacommands::add_emitted_bk_wav": stub(None), "compiler::Compiler.compile_block": stub(sym.var("BODY", "bytes")),
+             "deferred::SizedDeferred.construct": sized}
+    try:
+        run_directive(repo, name, build=build, extra=extra)
+    except (Unsupported, Unknown, Raised):
+        return
+    if any(x is None for x in seen):
+        ck.violation(f"metacommand_impl::Metacommand.compile_insn", f"{name} declares no size but is wrapped as a chunk that announces None bytes: a directive without a declared size has to stay an unsized deferred "
+                     "(its length is known once it is evaluated); 'addr += None' dies in compile_block", construct="sized chunk without a size")
+
+
 def rule_R1(ck):
     repo = ck.repo
     I = eager_interp(repo)
@@ -63,6 +91,7 @@ def rule_R1(ck):
         size_attr = cmd.fields.get("size")
         if size_attr is None:
             ck.instance(("unsized", name), None, fn=f"metacommands::{cmd.fields['fn'].name}")
+            _unsized_stays_unsized(ck, repo, name, cmd)
             continue
         n_sized += 1
         where = f"metacommands::{cmd.fields['fn'].name}"
@@ -106,6 +135,11 @@ def rule_R1(ck):
                         ck.unknown(f"{name} with {len(probe['ops'])} operands raises {p.value!r} during size analysis")
                     continue
                 size, val = unwrap(p.value)
+                raw = getattr(p.value, "value", p.value)
+                if is_sym(raw) and raw[:2] == ("op", "sized") and raw[2] is None:
+                    ck.violation(where, f"{name} with {len(probe['ops'])} operand(s) is wrapped as a chunk that announces None bytes: a directive without a declared size has to stay an unsized deferred "
+                                        "(its length is known once it is evaluated); 'addr += None' dies in compile_block", construct=f"{name}: sized chunk without a size")
+                    continue
                 errs = p.reported()
                 if val is None and any(e[0] == "call" and "stop_iteration" in repr(e[1]) for e in p.effects):
                     continue      # '.end' / '.once': control leaves through CompilerStopIteration
@@ -516,6 +550,9 @@ def rule_R4c(ck):
             y, vy, ly = mk(rhs)
             r = I.binop(ast.Add(), x, y)
             wait = I.module_get("deferred", "wait")
+            if r is None or not isinstance(r, (Rec, bytes, bytearray)) and not is_sym(r) and not hasattr(r, "value"):
+                from ..report import Defect
+                raise Defect("deferred::Concatenator.__add__", f"chunk {lhs} + chunk {rhs} evaluates to {r!r}, not to a chunk: the image loses everything assembled so far (or the next '+=' dies)", "chunk + chunk is not a chunk")
             length = I.call(wait, [I.call_method(r, "length", [])], {}) if isinstance(r, Rec) else len(r)
             return I.call(wait, [r], {}), length, sym.cat(vx, vy), sym.add(lx, ly)
         try:
